@@ -17,7 +17,8 @@ def run_case(ctx, case):
     rec.case(case, nontrivial=nontrivial_kv(U))
     rec.count("shape", ("bezier" if len(knots) == 2 else "spline") + ("-rational" if W is not None else ""))
     rec.count("degree", str(p))
-    curve = make_curve(U, P, W)
+    curve = make_curve(U, P, W, intknots=bool(c.get("intknots")))
+    rec.count("knots", "int" if c.get("intknots") else "fraction")
     start = curve_state(curve)
     r = impl(lambda: Derivate(curve))
     if curve_state(curve) != start:
@@ -76,3 +77,11 @@ def run(ctx):
         U, P, W = rand_curve(rng, pmax=(2 if rat else 4), nintmax=(1 if rat else 3), weights=("pos" if rat else "none"),
                              force_zero=(i % 7 == 0))
         run_case(ctx, ser(dict(kind="deriv", U=U, P=P, W=W)))
+    for i in range(budget(ctx, 25, 300)):
+        # integer knot vectors handed over as python ints (unequal spans: the ratios p/(u_(i+p)-u_i) are not integers)
+        U = rand_int_kv(rng, pmax=3, nintmax=3)
+        n = kv_info(U)[1]
+        rat = rng.random() < 0.3
+        P = rand_points(rng, n, rng.choice([1, 2]))
+        W = [F(rng.randint(1, 4)) for _ in range(n)] if rat else None
+        run_case(ctx, ser(dict(kind="deriv", U=U, P=P, W=W, intknots=True)))
